@@ -710,6 +710,42 @@ func (g *genCtx) cross() *unit {
 	}
 }
 
+// crossMinimal: the smallest cross-slot instance of one multi-key command — exactly two keys (for
+// the counted forms: Z*STORE dst 1 src, EVAL … 2 a b, BITOP op dst src, …), one per slot.  The
+// command is chosen by the caller's running index so that every multi-key command of the
+// reference table is met in this form within ~40 refusable units.
+func (g *genCtx) crossMinimal(n int) *unit {
+	pools()
+	cmd := poolMulti[((n%len(poolMulti))+len(poolMulti))%len(poolMulti)]
+	for tries := 0; tries < 400; tries++ {
+		u := &unit{ID: g.newID(), Class: clsCross}
+		sameNode := g.r.Intn(2) == 0
+		s1 := g.r.Intn(ref.Slots)
+		s2 := g.otherSlot(s1, sameNode)
+		key := g.keyFn(u.ID, func(i int) int {
+			if i == 1 {
+				return s2
+			}
+			return s1
+		}, nil, u)
+		c, good := g.oneCmd(cmd, key)
+		if !good {
+			continue
+		}
+		if ks, _ := ref.Keys(c.Name, c.Args); len(ks) != 2 {
+			continue
+		}
+		u.Cmds = []ucmd{c}
+		u.Variant = "minimal-two-key:" + cmd
+		g.finish(u)
+		if len(u.Slots) != 2 {
+			continue
+		}
+		return u
+	}
+	return g.cross()
+}
+
 // unknownCmds: names in neither the tool's static key table nor the double's command table
 // (COMMAND GETKEYS answers "Invalid command specified"), as a Redis without the module / a
 // key-less command would.
